@@ -135,6 +135,17 @@ def fam_truth():
                 P(Bin("||", v, PV(11, B(False)))),
                 Ret(I(0))]
         out.append({"id": "c08-truth-" + name, "prog": prog})
+    # if / else-if chains: every truth pattern of four conditions (probed, so that a condition evaluated after the taken branch shows),
+    # with and without else; exactly the first truthy branch runs and no later condition is evaluated
+    for bits in itertools.product((False, True), repeat=4):
+        for els in (False, True):
+            conds = [PV(11 + j, B(b)) for j, b in enumerate(bits)]
+            prog = [If(conds[0], [P(21)], elifs=[(conds[1], [P(22)]), (conds[2], [P(23)]), (conds[3], [P(24)])], els=[P(25)] if els else None), P(26), Ret(I(0))]
+            out.append({"id": "c08-elif-%s-%s" % ("".join("T" if b else "F" for b in bits), "else" if els else "noelse"), "prog": prog})
+    # the same with truthy / falsy values of other kinds
+    for name, v in TRUTH_POOL:
+        prog = [If(B(False), [P(21)], elifs=[(v, [P(22)]), (v, [P(23)]), (B(True), [P(24)])], els=[P(25)]), P(26), Ret(I(0))]
+        out.append({"id": "c08-elif-kind-" + name, "prog": prog})
     return out
 
 
@@ -360,6 +371,20 @@ def fam_c09():
     add("defer-in-deferred", [FnStmt("f", [], [Defer(ACall(Fn([], [Defer(Call("p", I(30))), P(31), Ret(I(0))]))), P(32), Ret(I(1))]), P(Call("f")), Ret(I(0))])
     add("defer-undefined-callee", [FnStmt("f", [], [P(1), Defer(Call("nosuch", I(1))), P(2), Ret(I(1))]), Try([P(Call("f"))], "e", [P(3)]), Ret(I(0))])
     add("defer-arg-fails", [FnStmt("f", [], [P(1), Defer(Call("p", Id("zz"))), P(2), Ret(I(1))]), Try([P(Call("f"))], "e", [P(3)]), Ret(I(0))])
+    # a deferred (or called) Go function that panics is an error of that call only: the other deferred calls still run, the body's error wins
+    for bodyend, bn in (([Ret(I(9))], "ret"), ([Throw(S("first"))], "throw"), ([], "normal")):
+        for order in ((1, "pp", 3), ("pp", 2, 3), (1, 2, "pp"), ("pp", 2, "pp")):
+            ds = [Defer(Call("pp", I(40 + j))) if o == "pp" else Defer(Call("p", I(40 + j))) for j, o in enumerate(order)]
+            add("defer-hostpanic-%s-%s" % (bn, "".join("X" if o == "pp" else "o" for o in order)), [FnStmt("f", [], ds + [P(2)] + bodyend), Try([P(Call("f")), P(3)], "e", [P(60)]), P(61), Ret(I(0))])
+    add("top-defer-hostpanic", [Defer(Call("p", I(1))), Defer(Call("pp", I(2))), Defer(Call("p", I(3))), P(4), Ret(I(5))])
+    add("top-defer-hostpanic-body-failed", [Defer(Call("p", I(1))), Defer(Call("pp", I(2))), P(4), Throw(S("body"))])
+    add("hostpanic-in-try", [Try([P(1), E(Call("pp", I(2))), P(3)], "e", [P(4)], f=[P(5)]), P(6), Ret(I(0))])
+    add("hostpanic-in-fn", [FnStmt("f", [], [Defer(Call("p", I(1))), E(Call("pp", I(2))), P(3), Ret(I(4))]), Try([P(Call("f"))], "e", [P(5)]), Ret(I(0))])
+    # an error raised by the catch block itself is uncaught: nothing after the failing point runs -- not the finally block either
+    add("catch-throws-finally", [Try([Try([P(1), Throw(S("a"))], "e", [P(Id("e")), Throw(S("b")), P(9)], f=[P(3)]), P(8)], "e2", [P(Id("e2"))]), P(4), Ret(I(0))])
+    add("catch-rterr-finally", [Try([Try([P(1), Throw(S("a"))], "e", [P(2), E(Id("zz")), P(9)], f=[P(3)]), P(8)], "e2", [P(5)]), P(4), Ret(I(0))])
+    add("catch-throws-finally-in-fn", [FnStmt("f", [], [Defer(Call("p", I(7))), Try([Throw(S("a"))], "e", [P(2), Throw(S("b"))], f=[P(3)]), P(8), Ret(I(1))]), Try([P(Call("f"))], "e2", [P(Id("e2"))]), Ret(I(0))])
+    add("catch-throws-finally-top", [Try([P(1), Throw(S("a"))], "e", [P(2), Throw(S("b"))], f=[P(3)]), P(4)])
     # try nesting
     add("nearest-try", [Try([P(1), Try([P(2), Throw(S("in")), P(3)], "e", [P(Id("e")), P(4)]), P(5)], "e2", [P(6)]), P(7), Ret(I(0))])
     add("rethrow", [Try([Try([Throw(S("a"))], "e", [P(Id("e")), Throw(S("b"))]), P(1)], "e2", [P(Id("e2"))]), P(2), Ret(I(0))])
